@@ -570,92 +570,99 @@ func runC04Order(c *Ctx) {
 	// (b) parseByteOrder, decided per value of the mark: the edges of the
 	// comparisons of the mark with constants are pruned for mark = 0, 1, 2 and the
 	// flag stores / returns that remain reachable are inspected
-	if f := c.P.Func("geom.(*wkbParser).parseByteOrder"); f == nil {
-		c.Errorf("anchor parseByteOrder does not resolve")
-	} else {
-		fn := FuncName(f)
-		isMark := func(v ssa.Value) bool {
-			s, _ := accessPath(v)
-			return strings.HasSuffix(s, ".bo") || strings.Contains(s, "readByte")
-		}
-		for _, mark := range []int64{0, 1, 2} {
-			blocks := reachableBlocks(f, func(cond ssa.Value, taken bool) bool {
-				bo, ok := cond.(*ssa.BinOp)
-				if !ok {
-					return true
-				}
-				k, isC := constInt(bo.Y)
-				if !isC || !isMark(bo.X) {
-					return true
-				}
-				var holds bool
-				switch bo.Op.String() {
-				case "==":
-					holds = mark == k
-				case "!=":
-					holds = mark != k
-				case "<":
-					holds = mark < k
-				case "<=":
-					holds = mark <= k
-				case ">":
-					holds = mark > k
-				case ">=":
-					holds = mark >= k
-				default:
-					return true
-				}
-				return holds == taken
-			})
-			var flags []string
-			succeeds := false
-			for _, b := range f.Blocks {
-				if !blocks[b] {
-					continue
-				}
-				for _, in := range b.Instrs {
-					switch x := in.(type) {
-					case *ssa.Store:
-						fa, ok := x.Addr.(*ssa.FieldAddr)
-						if !ok || !isBoolT(deref(fa.Type())) {
-							continue
-						}
-						which := "?"
-						if bo, ok := x.Val.(*ssa.BinOp); ok && bo.Op.String() == "==" {
-							for _, side := range []ssa.Value{bo.X, bo.Y} {
-								if mi, ok := side.(*ssa.MakeInterface); ok {
-									if u, ok := mi.X.(*ssa.UnOp); ok {
-										if gl, ok := u.X.(*ssa.Global); ok {
-											which = gl.Name()
-										}
-									}
-								}
+	// by interpretation of the function that stores the parser's native-order flag (parseByteOrder, or
+	// the function it was inlined into): for a first byte m and either host order, mark 0 sets the flag to
+	// (host is big-endian), mark 1 to (host is little-endian), and any other mark is an error
+	{
+		var f *ssa.Function
+		for _, g := range c.P.methodsOf("geom", "wkbParser") {
+			eachInstr(g, func(in ssa.Instruction) {
+				if st, ok := in.(*ssa.Store); ok {
+					if fa, ok := st.Addr.(*ssa.FieldAddr); ok {
+						if tn, fl := fieldOfAddr(fa); tn == "wkbParser" && fl == "no" {
+							if f == nil || g.Name() == "parseByteOrder" {
+								f = g
 							}
-						}
-						flags = append(flags, which)
-					case *ssa.Return:
-						if isNilConst(x.Results[0]) {
-							succeeds = true
 						}
 					}
 				}
-			}
-			construct := fmt.Sprintf("byte-order mark %d", mark)
-			if mark == 2 {
-				construct = "any other byte-order mark"
-			}
-			want := map[int64]string{0: "BigEndian", 1: "LittleEndian"}[mark]
-			switch {
-			case mark == 2 && succeeds:
-				c.Bad(f.Pos(), fn, construct, "parseByteOrder succeeds for a byte-order mark other than 0 and 1")
-			case mark == 2:
-				c.OK(f.Pos(), fn, construct, "rejected")
-			case !succeeds:
-				c.Bad(f.Pos(), fn, construct, "a valid byte-order mark is rejected")
-			case len(flags) == 1 && flags[0] == want:
-				c.OK(f.Pos(), fn, construct, "accepted with native-order flag = (nativeOrder == binary."+want+")")
-			default:
-				c.Bad(f.Pos(), fn, construct, fmt.Sprintf("under mark %d the native-order flag is set from %v, expected exactly (nativeOrder == binary.%s): coordinate bytes of a non-native stream would be reinterpreted without swapping", mark, flags, want))
+			})
+		}
+		if f == nil {
+			c.Errorf("no method of wkbParser stores the native-order flag (field no)")
+		} else {
+			fn := FuncName(f)
+			for _, mark := range []int64{0, 1, 2} {
+				construct := fmt.Sprintf("byte-order mark %d", mark)
+				if mark == 2 {
+					construct = "any other byte-order mark"
+				}
+				problem, undec := "", ""
+				marks := []float64{float64(mark)}
+				if mark == 2 {
+					marks = []float64{2, 255}
+				}
+				for _, mv := range marks {
+					for _, hostBig := range []bool{false, true} {
+						m := &Model{Num: map[string]float64{}, Bool: map[string]bool{}, Missing: map[string]bool{}}
+						it := &k4interp{p: c.P, m: m, mem: map[string]k4val{}, inline: func(g *ssa.Function) bool { return g.Name() == "readByte" || g.Name() == "parseByteOrder" }}
+						it.mem["$0.body"] = k4val{kind: 8, s: "B", ln: 1, cp: 1}
+						it.mem["B[0]"] = k4val{kind: 2, f: mv}
+						it.answer = func(key string, isBool bool) (k4val, bool) {
+							if !isBool || !strings.Contains(key, "nativeOrder") {
+								// everything after the byte-order mark succeeds (only consulted when the mark is read inside a larger function)
+								if isBool && strings.HasSuffix(key, "!=nil)") {
+									return k4val{kind: 1, b: false}, true
+								}
+								if isBool && strings.HasSuffix(key, "==nil)") {
+									return k4val{kind: 1, b: true}, true
+								}
+								return k4val{}, false
+							}
+							eq := strings.Contains(key, "==")
+							switch {
+							case strings.Contains(key, "BigEndian"):
+								return k4val{kind: 1, b: hostBig == eq}, true
+							case strings.Contains(key, "LittleEndian"):
+								return k4val{kind: 1, b: (!hostBig) == eq}, true
+							}
+							return k4val{}, false
+						}
+						args := []k4val{{kind: 3, s: "$0"}}
+						for range f.Params[1:] {
+							args = append(args, k4val{kind: 3, s: "$x"})
+						}
+						res, err := it.call(f, args, nil)
+						if err != nil || len(res) < 1 {
+							undec = fmt.Sprintf("mark %v: %v %s", mv, err, missingList(m))
+							break
+						}
+						errTerm := res[len(res)-1].String()
+						failed := errTerm != "nil"
+						flag, hasFlag := it.mem["$0.no"]
+						switch {
+						case mark == 2 && !failed:
+							problem = fmt.Sprintf("parseByteOrder succeeds for the byte-order mark %v (only 0 and 1 are valid)", mv)
+						case mark != 2 && failed && f.Name() == "parseByteOrder":
+							problem = "a valid byte-order mark is rejected"
+						case mark != 2 && (!hasFlag || flag.kind != 1 || flag.b != (hostBig == (mark == 0))):
+							problem = fmt.Sprintf("under mark %d on a %s host the native-order flag is %s, expected %v (nativeOrder == binary.%s): coordinate bytes of a non-native stream would be reinterpreted without swapping", mark, map[bool]string{true: "big-endian", false: "little-endian"}[hostBig], flag, hostBig == (mark == 0), map[int64]string{0: "BigEndian", 1: "LittleEndian"}[mark])
+						}
+					}
+					if undec != "" {
+						break
+					}
+				}
+				switch {
+				case undec != "":
+					c.Undecided(f.Pos(), fn, construct, "cannot interpret: "+undec)
+				case problem != "":
+					c.Bad(f.Pos(), fn, construct, problem)
+				case mark == 2:
+					c.OK(f.Pos(), fn, construct, "rejected")
+				default:
+					c.OK(f.Pos(), fn, construct, "accepted with native-order flag = (nativeOrder == binary."+map[int64]string{0: "BigEndian", 1: "LittleEndian"}[mark]+") on either host")
+				}
 			}
 		}
 	}
@@ -705,8 +712,8 @@ func runC04Order(c *Ctx) {
 			}
 		})
 	}
-	if nPut < 3 {
-		c.Errorf("only %d fixed-width encodes found in the WKB marshaller, expected 3", nPut)
+	if nPut < 1 {
+		c.Errorf("only %d fixed-width encodes found in the WKB marshaller (today 3)", nPut)
 	}
 	if f := c.P.Func("geom.(*wkbMarshaler).writeByteOrder"); f == nil {
 		c.Errorf("anchor writeByteOrder does not resolve")
